@@ -284,10 +284,10 @@ SPECS['C20'] = {
     'technique': 'stateless model checking of the real code under a controlled scheduler: every load/store of the (TSan-instrumented, runtime-less) library reports to the harness, a footprint pass finds conflict granules (written by one task, touched by another / writable statics), and all schedules with at most k preemptions at task start, end, blocking and conflict-granule accesses are enumerated with a fixpoint on newly found conflicts; plus a separate free-running pass of the same task bodies under the real ThreadSanitizer',
     'claim': 'For every unordered pair (thorough: also triples of the six cheapest) of the 15 workload operations, each on its own objects and its own entropy stream, every schedule within the preemption bound gives each task exactly the outputs it produces alone; no memory granule is written by one task and accessed by another and no library static is written at all (conflict set empty => no data race on library state in any interleaving of these tasks); the free-running ThreadSanitizer pass reports no race and the same outputs.',
     'trusted': 'clang -fsanitize=thread instrumentation reports every library load/store (memcpy/memset/memmove through --wrap with -fno-builtin); sequential consistency; the hand-off scheduler; libc internals (stdio locks) are outside',
-    'rule': 'operations: hash (SM3, SHA-256, SHA-512), HMAC+PBKDF2, SM4 CBC/CTR/GCM, ZUC, SM2 keygen+sign+verify, SM2 encrypt+ECDH, X.509 sign+verify (+error path), CMS sign+verify+encrypt+decrypt, TLS record protect/unprotect (CBC, GCM), malformed-input decoding (error path), SM9 sign+verify, PKCS#8 encrypt/decrypt, TLCP / TLS 1.2 / TLS 1.3 handshake (client task + server task over a private pipe pair). every execution in a forked child (pristine statics); distinct = (combination, schedule prefix); states = choice points + schedules, transitions = choice points.',
+    'rule': 'operations: hash (SM3, SHA-256, SHA-512), HMAC+PBKDF2, SM4 CBC/CTR/GCM, ZUC, SM2 keygen+sign+verify, SM2 encrypt+ECDH, X.509 sign+verify (+error path), CMS sign+verify+encrypt+decrypt, TLS record protect/unprotect (CBC, GCM), malformed-input decoding (error path), SM9 sign+verify, PKCS#8 encrypt/decrypt, misc-interfaces (compressed points, key containers, base64, hex, times, OIDs, CRL / request signing, CCM / OFB / CFB / CBC-MAC, ZUC-256, SHA-1 / SHA-384, HKDF, SM9 encryption and exchange), names-and-printers (every `const char *name(int)` helper of the headers - table generated by bin/vgen_c20 - over 340 identifiers in an instance-dependent order, certificate / CRL / request / CMS / key / OID printers into a per-task memory stream), TLCP / TLS 1.2 / TLS 1.3 handshake (client task + server task over a private pipe pair). every execution in a forked child (pristine statics); distinct = (combination, schedule prefix); states = choice points + schedules, transitions = choice points.',
     'bound': {'quick': 'pairs, preemptions <= 1 (0 for two concurrent handshakes = 4 tasks: all run-to-block schedules)', 'thorough': 'pairs with preemptions <= 2 (<= 1 when a handshake is involved), triples of cheap operations with preemptions <= 2'},
     'assumptions': ['at most 3 (4 with handshake pairs) tasks in the exhaustive part; 16-thread behaviour only through the free-running pass', 'weak-memory reorderings beyond what ThreadSanitizer models are out of scope'],
-    'quick': [J('c20', 'vsched', srcs=TLSSRC, libs=VSWRAP, deadline=150), J('c20', 'tsan', srcs=TLSSRC, libs=['-lpthread', '-ldl', '-lm'], deadline=150)],
-    'thorough': [J('c20', 'vsched', srcs=TLSSRC, libs=VSWRAP, deadline=1500), J('c20', 'tsan', srcs=TLSSRC, libs=['-lpthread', '-ldl', '-lm'], deadline=900)],
+    'quick': [J('c20', 'vsched', srcs=TLSSRC, libs=VSWRAP, gen='vgen_c20', deadline=150), J('c20', 'tsan', srcs=TLSSRC, libs=['-lpthread', '-ldl', '-lm'], gen='vgen_c20', deadline=150)],
+    'thorough': [J('c20', 'vsched', srcs=TLSSRC, libs=VSWRAP, gen='vgen_c20', deadline=1500), J('c20', 'tsan', srcs=TLSSRC, libs=['-lpthread', '-ldl', '-lm'], gen='vgen_c20', deadline=900)],
     'budget': {'quick': 170, 'thorough': 1700},
 }
